@@ -399,7 +399,7 @@ pub mod fasta {
             old(self).position.line + old(self).buf_pos.seq_pos@.len() <= u64::MAX,
         ensures
             [C01,C03,C04,C05|fasta.increment_record.byte] final(self).position.byte == old(self).position.byte + (old(self).search_pos - old(self).buf_pos.start),
-            [C01,C03,C04,C05|fasta.increment_record.line] final(self).position.line == old(self).position.line + old(self).buf_pos.seq_pos@.len(),
+            [C01,C03,C04,C05,C12,C17|fasta.increment_record.line] final(self).position.line == old(self).position.line + old(self).buf_pos.seq_pos@.len(),
             [C01,C03,C04,C05|fasta.increment_record.start] final(self).buf_pos.start == old(self).search_pos && final(self).buf_pos.seq_pos@.len() == 0,
             [C01,C03,C04,C05,C06|fasta.increment_record.frame] final(self).buf_reader == old(self).buf_reader && final(self).buf_policy == old(self).buf_policy
                 && final(self).state == old(self).state && final(self).search_pos == old(self).search_pos,
@@ -511,13 +511,13 @@ pub mod fasta {
                     && self.position.byte == self.base() && (self.b().len() > 0 ==> self.base() + self.b().len() <= self.f().len()),
                 [C01,C03,C04|fasta.first_byte.outer.skipped_blank_lines] self.base() <= self.f().len()
                     && first_nonblank(self.f(), 0) == first_nonblank(self.f(), self.base()),
-                [C03,C05,C17|fasta.first_byte.outer.line_count] line_num == count_lf(self.f(), self.base()) && line_num <= self.base(),
+                [C03,C05,C12,C17|fasta.first_byte.outer.line_count] line_num == count_lf(self.f(), self.base()) && line_num <= self.base(),
                 [C01,C03,C04|fasta.first_byte.outer.leftover_is_blank] old(self).fresh() ==> self.b().len() <= 1 && blank(self.b()) && nl(self.b(), 0) == self.b().len(),
             decreases
                 (if self.base() + self.b().len() <= self.f().len() { self.f().len() - self.base() - self.b().len() } else { 0 }),
 //@closure 0 params="b: &u8" ret="(r: bool)"
             ensures r == (*b == 10u8)
-//@at depth=2 kw=let nth=0 expect="let mut pos = 0;"
+//@at depth=2 kw=let nth=0 expect="let mut pos = 0;" unique=1
             let ghost mut g_last: int = 0;
 //@loop 1 r8=vx_sp
             invariant
@@ -541,7 +541,7 @@ pub mod fasta {
                             &&& nl(self.b(), lp) == self.b().len() && blank(self.b().subrange(lp, self.b().len() as int))
                         }))
                 }),
-                [C03,C05,C17|fasta.first_byte.inner.line_count] ({
+                [C03,C05,C12,C17|fasta.first_byte.inner.line_count] ({
                     &&& (!split_done(&vx_sp) ==> line_num == count_lf(self.f(), self.base() + pos))
                     &&& (split_done(&vx_sp) ==> line_num == count_lf(self.f(), self.base() + self.b().len() - g_last) + 1)
                 }),
@@ -553,13 +553,13 @@ pub mod fasta {
                             &&& first_nonblank(self.f(), 0) == first_nonblank(self.f(), self.base() + lp)
                             &&& nl(self.b(), lp) == self.b().len() && blank(self.b().subrange(lp, self.b().len() as int))
                         }),
-                [C03,C05,C17|fasta.first_byte.inner.exit_line_count] line_num == count_lf(self.f(), self.base() + self.b().len() - g_last) + 1,
+                [C03,C05,C12,C17|fasta.first_byte.inner.exit_line_count] line_num == count_lf(self.f(), self.base() + self.b().len() - g_last) + 1,
             decreases (if split_done(&vx_sp) { 0int } else { split_rest(&vx_sp).len() as int + 1 }),
 //---pre
             let ghost sr0 = split_rest(&vx_sp);
             let ghost pos0 = pos as int;
             let ghost done0 = split_done(&vx_sp);
-//@at depth=3 kw=line_num nth=0 expect="line_num \+= 1;"
+//@at depth=3 kw=line_num nth=0 expect="line_num \+= 1;" unique=1
                 proof {
                     assert(!done0);
                     let (ff, a, bb) = (self.f(), self.base(), self.b());
@@ -721,7 +721,7 @@ pub mod fasta {
                 [C09|fasta.resume.inv.full_when_clean] self.clean() ==> self.b().len() == self.buf_reader.cap() && at_end(self.b(), self.search_pos as int),
             decreases
                 (if self.base() + self.b().len() <= self.f().len() { self.f().len() - self.base() - self.b().len() } else { 0 }),
-//@at depth=3 kw=self nth=0 expect="self\.grow\(\)"
+//@at depth=3 kw=self nth=0 expect="self\.grow\(\)" unique=1
                 proof {
                     if make_room && self.clean() {
                         let e = self.search_pos as int;
@@ -736,7 +736,7 @@ pub mod fasta {
                 assert forall|b2: Seq<u8>| b_before.len() <= b2.len() && b2.subrange(0, b_before.len() as int) == b_before
                     implies #[trigger] partial_l(b2, st, l, e) by { lemma_partial_prefix(b_before, b2, st, l, e); }
             }
-//@at depth=2 kw=if nth=1 expect="if self\.search\(\)"
+//@at depth=2 kw=if nth=1 expect="if self\.search\(\)" unique=1
             proof {
                 lemma_partial_prefix(b_before, self.b(), self.buf_pos.start as int, spv(self.buf_pos.seq_pos@), self.search_pos as int);
             }
@@ -807,7 +807,7 @@ pub mod fasta {
                 assert(spv(self.buf_pos.seq_pos@).len() == self.buf_pos.seq_pos@.len());
             }
         }
-//@at depth=1 kw=if nth=0 expect="if self\.state != State::Incomplete"
+//@at depth=1 kw=if nth=0 expect="if self\.state != State::Incomplete" unique=1
         proof {
             assert(spv(self.buf_pos.seq_pos@) =~= Seq::<int>::empty() || self.state == State::Incomplete);
             if self.state != State::Incomplete {
@@ -845,7 +845,7 @@ pub mod fasta {
                 && final(self).buf_reader.errs() == old(self).buf_reader.errs(),
             [C09|fasta.seek.capacity] final(self).buf_reader.cap() == old(self).buf_reader.cap(),
             [C01,C03,C14,C17|fasta.seek.err] r matches Err(e) ==> (e matches Error::Io(x) && final(self).buf_reader.errs() == old(self).buf_reader.errs().push(x)),
-//@at depth=2 kw=return nth=0 expect="return Ok\(\(\)\);"
+//@at depth=2 kw=return nth=0 expect="return Ok\(\(\)\);" unique=1
             proof {
                 assert(lfs(self.b(), self.buf_pos.start as int, self.buf_pos.start as int) =~= Seq::<int>::empty());
                 assert(spv(self.buf_pos.seq_pos@) =~= Seq::<int>::empty());
@@ -1388,7 +1388,7 @@ trait RecordD {
         requires
             self.rwf(),
         ensures
-            [C13,C04|fasta.owned_seq.is_concatenation_of_lines] r@ == concat(self.lines_v()),
+            [C01,C04,C12,C13|fasta.owned_seq.is_concatenation_of_lines] r@ == concat(self.lines_v()),
 //@loop 0 r8=vx_it
             invariant
                 vx_it.swf() && vx_it.data@ == self.buffer@,
@@ -1401,7 +1401,7 @@ trait RecordD {
 //---pre
             let ghost k0 = self.lines_v().len() - vx_it.views().len();
             proof { assert(self.lines_v().subrange(0, self.lines_v().len() as int) =~= self.lines_v()); }
-//@at depth=2 kw=seq nth=0 expect="seq\.extend\("
+//@at depth=2 kw=seq nth=0 expect="seq\.extend\(" unique=1
             proof {
                 broadcast use axiom_ref_items_slice;
                 let ls = self.lines_v();
@@ -1435,7 +1435,7 @@ trait RecordD {
         requires
             self.rwf(),
         ensures
-            [C13,C04|fasta.to_owned_record] r.head@ == self.head_v() && r.seq@ == concat(self.lines_v()),
+            [C01,C04,C12,C13|fasta.to_owned_record] r.head@ == self.head_v() && r.seq@ == concat(self.lines_v()),
 //@end
 
 //@fn fasta::RefRecord::write_unchanged ret=r tags=C11
@@ -1765,7 +1765,7 @@ trait RecordD {
                 lemma_lines_complete(ff, a + st, shl(spv(self.buf_pos.seq_pos@), a), a + e);
             }
         }
-//@at depth=1 kw=let nth=0 expect="let mut \w+ = \w+;"
+//@at depth=1 kw=let nth=0 expect="let mut \w+ = \w+;" unique=1
         let ghost mut grow_at: int = -1;
         proof {
             lemma_ps_empty(rset.positions@, self.b(), self.base(), self.f(), old(self).cursor(), self.state == State::Finished);
@@ -1795,7 +1795,7 @@ trait RecordD {
             decreases
                 self.f().len() + 2 - self.gpos(),
                 (if self.state == State::Incomplete { 0int } else { 1int }),
-//@at depth=2 kw=if nth=0 expect="if self\.state == State::Incomplete"
+//@at depth=2 kw=if nth=0 expect="if self\.state == State::Incomplete" unique=1
             let ghost b0 = self.b();
             let ghost k0 = rset.n();
             let ghost ps0 = rset.positions@;
@@ -1806,12 +1806,12 @@ trait RecordD {
                                 grow_at = k0;
                                 assert(fa_nofit(old(self).f(), fa_start(old(self).f(), old(self).cursor(), k0), old(self).buf_reader.cap() as int));
                             } }
-//@at depth=3 kw=if nth=1 expect="if !\w+ \{"
+//@at depth=3 kw=if nth=1 expect="if !\w+ \{" unique=1
                 proof { if self.buf_reader.cap() > cap_before && n_records is None && old(self).clean() {
                         grow_at = k0;
                         assert(fa_nofit(old(self).f(), fa_start(old(self).f(), old(self).cursor(), k0), old(self).buf_reader.cap() as int));
                     } }
-//@at depth=2 kw=if nth=1 expect="if let Some\(\w+\) = rset\.positions\.get_mut\("
+//@at depth=2 kw=if nth=1 expect="if let Some\(\w+\) = rset\.positions\.get_mut\(" unique=1
             let ghost open = self.state == State::Finished;
             proof {
                 if k0 > 0 {
@@ -1821,7 +1821,7 @@ trait RecordD {
                     lemma_ps_empty(ps0, self.b(), self.base(), self.f(), old(self).cursor(), false);
                 }
             }
-//@at depth=2 kw=rset nth=0 expect="rset\.npos \+= 1;"
+//@at depth=2 kw=rset nth=0 expect="rset\.npos \+= 1;" unique=1
             proof {
                 let (ff, a, bb, st, e) = (self.f(), self.base(), self.b(), self.buf_pos.start as int, self.search_pos as int);
                 assert(k0 < rset.positions@.len());
@@ -1843,7 +1843,7 @@ trait RecordD {
                 assert(spv(self.buf_pos.seq_pos@) =~= Seq::<int>::empty());
                 assert(lfs(self.b(), self.buf_pos.start as int, self.buf_pos.start as int) =~= Seq::<int>::empty());
             }
-//@at depth=1 kw=rset nth=1 expect="rset\.\w+\.clear\(\);"
+//@at depth=1 kw=rset nth=1 expect="rset\.\w+\.clear\(\);" unique=1
         proof { broadcast use axiom_ref_items_slice; reveal(ps_valid); reveal(ps_lifted); }
 //@at tail expect="(return )?Some\(Ok\("
         proof { assert(rset.buffer@ =~= self.b()); }
@@ -2050,7 +2050,7 @@ trait RecordD {
                 assert(all.subrange(0, k0 + 1) =~= all.subrange(0, k0).push(all[k0]));
                 lemma_concat_push(all.subrange(0, k0), all[k0]);
             }
-//@at depth=2 kw=let nth=0 expect="let mut chunk = subseq;"
+//@at depth=2 kw=let nth=0 expect="let mut chunk = subseq;" unique=1
             proof {
                 assert(subseq@.subrange(0, 0) =~= Seq::<u8>::empty());
                 assert(t0 + Seq::<u8>::empty() =~= t0);
